@@ -13,7 +13,7 @@ func init() { vrt.Register("zzverif.VC09", VC09) }
 // VC09: the COFF object carries the same code as the flat binary and the
 // right symbols.
 func VC09() {
-	layout := vrt.ChooseStr("layout", []string{"globals-first", "globals-last", "split", "reverse-order", "with-undefined", "subset", "duplicate", "two-reversed", "two-undefined-first", "one"})
+	layout := vrt.ChooseStr("layout", []string{"globals-first", "globals-last", "split", "reverse-order", "with-undefined", "subset", "duplicate", "two-reversed", "two-undefined-first", "one", "dup-then-new"})
 	ln := []int{3, 8, 9, 20}[vrt.Choose("namelen", 4)]
 	fileLen := []int{0, 8, 18}[vrt.Choose("filelen", 3)]
 	a, b, c := nameOf(0, ln), nameOf(1, ln), nameOf(2, ln)
@@ -55,6 +55,9 @@ func VC09() {
 	case "two-undefined-first":
 		head = "\tGLOBAL " + ghost + ", " + c + "\n"
 		globals = []string{c}
+	case "dup-then-new":
+		head = "\tGLOBAL " + a + ", " + b + "\n\tGLOBAL " + a + ", " + c + "\n"
+		globals = []string{a, b, c}
 	case "one":
 		head = "\tGLOBAL " + a + "\n"
 		globals = []string{a}
